@@ -19,9 +19,9 @@ def run(ctx):
     exes = build(ctx)
     th = ctx.tier == "thorough"
     # the > 4 GiB table (every byte counter crosses 2^32) runs beside the main fan: -O2 build in quick (≈10 s), ASan too in thorough
-    big = [((exes["h_table.plain"], "big", 2 if th else 1), dict(chunk=1, timeout=900, prefix="plain.", max_workers=2))]
+    big = [((exes["h_table.plain"], "big", 2 if th else 1), dict(chunk=1, timeout=900, prefix="plain.", max_workers=2, tag="big.plain"))]
     if th:
-        big.append(((exes["h_table"], "big", 2), dict(chunk=1, timeout=900, max_workers=2)))
+        big.append(((exes["h_table"], "big", 2), dict(chunk=1, timeout=900, max_workers=2, tag="big.asan")))   # own work directory: both builds name their file big-<case>.mtbl
     ctx.fan_parallel([((exes["h_table"], "c10", 40000 if th else 1500, ["--aux", exes["mtbl_info"]]), dict(timeout=120, max_workers=14))] + big)
     s = ctx.stats
     ctx.assumptions += ["the > 4 GiB table is checked against frame lengths read with pread and an own varint decoder (its 4 GiB of CRCs are not recomputed)", "truth = counts and byte extents computed by harness/refdec.c from the file bytes, cross-checked with what the harness fed to the writer"]
